@@ -174,22 +174,22 @@ func goldenPlan() []GoldenEntry {
 			Data: gen.Recipe{Kind: gen.KLimits, Len: n, Seed: uint64(len(es) + 1), P1: p1, P2: p2}})
 	}
 	for _, p2 := range []int{0, 1, 128, 255} {
-		lim("RLT", "NONE", 0, p2, 150000, 262144)  // one run of 65538 + 31*p2 bytes (up to 73443: a single maximal run token)
+		lim("RLT", "NONE", 0, p2, 150000, 262144)    // one run of 65538 + 31*p2 bytes (up to 73443: a single maximal run token)
 		lim("RLT", "HUFFMAN", 1, p2, 400000, 524288) // a run of 73474 + 1000*p2 bytes (split into several tokens)
-		lim("ZRLT", "NONE", 2, p2, 200000, 262144)  // zero run beyond 2^16
+		lim("ZRLT", "NONE", 2, p2, 200000, 262144)   // zero run beyond 2^16
 	}
 	for _, tr := range []string{"LZ", "LZX", "LZP", "ROLZ", "ROLZX", "BWT", "BWTS", "RLT+LZ"} {
-		lim(tr, "NONE", 3, 7, 200000, 262144)   // one short period repeated to the end: matches of maximal length
-		lim(tr, "ANS0", 4, 3, 300000, 524288)   // far matches (distance above 64 KiB)
+		lim(tr, "NONE", 3, 7, 200000, 262144) // one short period repeated to the end: matches of maximal length
+		lim(tr, "ANS0", 4, 3, 300000, 524288) // far matches (distance above 64 KiB)
 	}
 	for _, tr := range []string{"MTFT", "RANK", "SRT", "PACK", "ZRLT", "NONE"} {
 		lim(tr, "HUFFMAN", 5, 0, 70000, 131072) // every byte value with a strongly skewed histogram
 		lim(tr, "RANGE", 5, 1, 70000, 131072)
 	}
-	add("TEXT", "NONE", gen.KText, 600000, 1<<20, 32, false)   // dictionary growth well beyond the static part
-	add("TEXT", "ANS1", gen.KText, 100000, 131072, 0, false)   // TEXT flavour selected by the entropy codec name
+	add("TEXT", "NONE", gen.KText, 600000, 1<<20, 32, false) // dictionary growth well beyond the static part
+	add("TEXT", "ANS1", gen.KText, 100000, 131072, 0, false) // TEXT flavour selected by the entropy codec name
 	add("TEXT", "CM", gen.KXML, 60000, 65536, 0, false)
-	add("RLT", "ANS1", gen.KRuns, 100000, 131072, 0, false)    // RLT escape selection depends on the entropy codec name
+	add("RLT", "ANS1", gen.KRuns, 100000, 131072, 0, false) // RLT escape selection depends on the entropy codec name
 	add("RLT", "FPAQ", gen.KRuns, 100000, 131072, 0, false)
 	add("UTF", "NONE", gen.KUTF8, 300000, 524288, 32, false)
 	add("UTF", "HUFFMAN", gen.KUTF8, 60000, 65536, 0, false)
